@@ -384,7 +384,11 @@ def impl(case):
                 if case['classes'][ci]['kind'] == 'container':
                     obj = cls(sp, strict=a['strict'])
                 else:
-                    obj = cls(sp, strict=a['strict'], **{k: list(map(lib.unhex, v)) for k, v in a['initial'].items()})
+                    kwargs = {k: list(map(lib.unhex, v)) for k, v in a['initial'].items()}
+                    if a.get('initial_from'):        # an initial value that is ANOTHER object's array (the array object itself is passed)
+                        f = a['initial_from']
+                        kwargs[f['name']] = roots[f['j']].__dict__['_' + f['src']]
+                    obj = cls(sp, strict=a['strict'], **kwargs)
                 roots.append(obj)
                 derived.append([len(roots) - 1, 'init', ci])
             elif kind == 'copy':
@@ -583,6 +587,19 @@ def run_op_(roots, i, o, enc):
         setattr(x, o[1], list(o[2]))
     elif k == 'strict':
         x.strict = o[1]
+    elif k == 'setfrom':             # whole-series assignment whose VALUE is ANOTHER object's array (same dtype): b.X = a.X
+        _, name, j, name2, how = o
+        other = roots[j]
+        value = (other.cls if isinstance(other, ClassRoot) else other).__dict__['_' + name2]      # the array object itself
+        if how == 'attr':
+            setattr(x, name, value)
+        elif how == 'item':
+            x[name] = value
+        else:
+            x.replace_values(**{name: value})
+    elif k == 'addvar_from':          # obj.add_variable(name, <another object's array>)
+        _, name, j, name2 = o
+        x.add_variable(name, roots[j].__dict__['_' + name2])
     elif k == 'setattr_own':          # obj.name = obj.<attr>: the user aliases one of the object's own lists under a second attribute
         setattr(x, o[1], x.__dict__[o[2]])
     elif k == 'lappend':
@@ -831,6 +848,12 @@ def c_case(case, obs):
         if k == 'op':
             # (an operation that raised is run in the model too — it fails there the same way and leaves the heap as it is; traced
             # operations are replayed with the labels they stored before raising: see run_op)
+            if ev[2][0] == 'setfrom':
+                evs.append('(HCopySeries %d%%nat %d%%nat %s %s)' % (ev[1], ev[2][2], cz(enc.code(ev[2][3])), cz(enc.code(ev[2][1]))))
+                continue
+            if ev[2][0] == 'addvar_from':
+                evs.append('(HAddVarFrom %d%%nat %d%%nat %s %s)' % (ev[1], ev[2][2], cz(enc.code(ev[2][3])), cz(enc.code(ev[2][1]))))
+                continue
             ops = c_ops(case, ev, out, enc, kinds)
             if ops and ops[0] == '@solve':
                 evs.append('(HOps %d%%nat %s)' % (ev[1], ops[1]))
@@ -845,9 +868,14 @@ def c_case(case, obs):
             sd = a['span']
             n = case['shared_spans'][sd['id']]['n'] if sd['kind'] == 'shared' else sd['n']
             init = lib.clist('(%s, %s)' % (cz(enc.code(nm)), czl(enc.code(lib.unhex(v)) for v in vs)) for nm, vs in a['initial'].items())
-            evs.append('(HEv (EInit %d%%nat (mkIargs %s %d%%nat %s %s %s %s %s %s None)))' % (
-                ev[1], c_span_src(sd, enc, span_locs), n, cz(enc.code(bool(a['strict']))), cz(enc.code(float)),
-                cz(enc.code(np.dtype('float64'))), cz(enc.code(0.0)), cz(enc.code('python')), init))
+            iargs = '(mkIargs %s %d%%nat %s %s %s %s %s %s None)' % (
+                c_span_src(sd, enc, span_locs), n, cz(enc.code(bool(a['strict']))), cz(enc.code(float)),
+                cz(enc.code(np.dtype('float64'))), cz(enc.code(0.0)), cz(enc.code('python')), init)
+            if a.get('initial_from'):
+                f = a['initial_from']
+                evs.append('(HInitFrom %d%%nat %s %d%%nat %s %s)' % (ev[1], iargs, f['j'], cz(enc.code(f['src'])), cz(enc.code(f['name']))))
+            else:
+                evs.append('(HEv (EInit %d%%nat %s))' % (ev[1], iargs))
         elif k == 'copy':
             evs.append('(HEv (%s %d%%nat))' % ('ELinkerCopy' if kinds[ev[1]]['desc']['kind'] == 'linker' else 'ECopy', ev[1]))
         elif k == 'linker_init':
@@ -1267,6 +1295,14 @@ def gen_case(rng, flavour, uniq):
         if desc['kind'] == 'model' and rng.random() < 0.5:
             init[rng.choice(desc['endo'] + desc['exo'])] = [lib.fhex(rng.choice(FLOATS)) for _ in range(n)]
         events.append(['init', 0, {'span': sd, 'strict': rng.random() < 0.15, 'initial': init}])
+        # a sibling seeded from an existing instance: an initial value that is that instance's array
+        donors = [k for k, sh in enumerate(shadows) if sh is not None and sh.kind == 'model' and sh.n == n and set(sh.fvars) & set(desc['endo'] + desc['exo'])]
+        if desc['kind'] == 'model' and donors and not shared and rng.random() < 0.3:
+            j = rng.choice(donors)
+            src = rng.choice(sorted(set(shadows[j].fvars) & set(desc['endo'] + desc['exo'])))
+            dst = rng.choice(desc['endo'] + desc['exo'])
+            events[-1][2]['initial'].pop(dst, None)
+            events[-1][2]['initial_from'] = {'name': dst, 'j': j, 'src': src}
         vs = list(desc['endo'] + desc['exo'])
         sh = Shadow(desc['kind'], 0, desc, n, vs, vs + (['status', 'iterations'] if desc['kind'] == 'model' else []))
         sh.strict = events[-1][2]['strict']
@@ -1326,6 +1362,23 @@ def gen_case(rng, flavour, uniq):
             continue
         i = rng.choice([k for k in live if k >= len(classes)])
         s = shadows[i]
+        if rng.random() < 0.09:
+            # cross-object assignment: a whole series of root i is assigned from ANOTHER root's array of the same dtype (b.X = a.X,
+            # b['X'] = a.X, b.replace_values(X=a.X)): the values must be copied, the array must not become i's storage
+            others = [k for k in live if k >= len(classes) and k != i and shadows[k].kind == s.kind and set(shadows[k].fvars) & set(s.fvars)]
+            if others:
+                j = rng.choice(others)
+                common = sorted(set(shadows[j].fvars) & set(s.fvars))
+                name = rng.choice(common)
+                if rng.random() < 0.25 and shadows[j].n == s.n:
+                    new = rng.choice(['V1', 'V2', 'W9'])
+                    events.append(['op', i, ['addvar_from', new, j, name]])
+                    if new not in s.allvars:
+                        s.allvars.append(new)
+                        s.fvars.append(new)
+                    continue
+                events.append(['op', i, ['setfrom', name, j, rng.choice(common) if rng.random() < 0.3 else name, rng.choice(['attr', 'item', 'replace'])]])
+                continue
         events.append(['op', i, gen_op(rng, s, fresh_float, alias, tracer)])
         o = events[-1][2]
         if o[0] == 'addvar' and o[1] not in s.allvars:
@@ -1469,6 +1522,8 @@ def finish(case):
             kinds.append(kinds[ev[1]])
         elif ev[0] == 'op' and ev[2][0] == 'addvar' and vars_of[ev[1]] is not None and ev[2][1] not in vars_of[ev[1]]:
             vars_of[ev[1]][ev[2][1]] = ev[2][3]
+        elif ev[0] == 'op' and ev[2][0] == 'addvar_from' and vars_of[ev[1]] is not None and ev[2][1] not in vars_of[ev[1]]:
+            vars_of[ev[1]][ev[2][1]] = 'float'
     case['reindex_old'] = reindex_old
     enc = Enc(BASE)
     import numpy as np
@@ -1540,7 +1595,9 @@ def corpus_cases():
            ['op', 1, ['solve', 1, [['Y', h(4.0)], ['C', h(5.0)]], None]], ['op', 1, ['setattr', 'lags', 2]],
            ['op', 1, ['strict', False]], ['op', 1, ['setattr_own', 'mine', 'names']], ['op', 1, ['setattr_own', 'ind', 'check']]]
     evs += [['copy', 1, r] for r in routes]
-    evs += [['op', 2, ['lappend', 'mine', 'ZZ']], ['op', 1, ['lappend', 'ind', 'Y']]]
+    evs += [['op', 2, ['lappend', 'mine', 'ZZ']], ['op', 1, ['lappend', 'ind', 'Y']],
+            ['op', 2, ['setfrom', 'Y', 1, 'Y', 'attr']], ['op', 3, ['setfrom', 'C', 1, 'Y', 'item']], ['op', 1, ['setfrom', 'G', 4, 'G', 'replace']],
+            ['op', 1, ['setitem', 'Y', 0, h(11.5), 'attr']], ['op', 4, ['setscalar', 'G', h(12.5)]]]
     evs += [['init', 0, {'span': {'kind': 'range', 'start': 2000, 'n': 3}, 'strict': False, 'initial': {}}],
             ['op', 2, ['setitem', 'GDP', 0, h(9.5), 'label']], ['op', 3, ['lappend', 'check', 'G']], ['op', 0, ['lappend', 'CHECK', 'G']],
             ['op', 5, ['lappend', 'endogenous', 'C']], ['op', 4, ['setseq', 'AL2', [h(1.5), h(2.5), h(3.5)], 'item']]]
